@@ -76,18 +76,20 @@ func BoundaryModels() []Boundary {
 			}
 		}
 		wide := &Rewrite{Kind: Union, Kids: []*Rewrite{this()}}
-		for i := 0; i < 14; i++ {
+		for i := 0; i < 12; i++ {
 			wide.Kids = append(wide.Kids, comp([]string{"a", "b", "c"}[i%3]))
 		}
 		wide.Kids = append(wide.Kids, &Rewrite{Kind: Intersection, Kids: []*Rewrite{comp("a"), comp("b")}}, &Rewrite{Kind: Intersection, Kids: []*Rewrite{comp("b"), comp("c")}})
+		six := &Rewrite{Kind: Intersection, Kids: []*Rewrite{comp("a"), comp("b"), comp("c"), comp("a"), comp("b"), {Kind: Union, Kids: []*Rewrite{comp("c"), comp("a")}}}}
 		m := &Model{Schema: "1.1", Types: []TypeDef{user, {Name: "doc", Rels: []Relation{
 			{Name: "a", Rw: this(), Restr: []Restriction{{Type: "user"}}},
 			{Name: "b", Rw: this(), Restr: []Restriction{{Type: "user"}}},
 			{Name: "c", Rw: this(), Restr: []Restriction{{Type: "user"}}},
 			{Name: "deep", Rw: rw},
 			{Name: "wide", Rw: wide, Restr: []Restriction{{Type: "user"}}},
+			{Name: "six", Rw: six},
 		}}}}
-		out = append(out, Boundary{"nesting eight levels deep, 17 operands with same-kind groups behind them", m})
+		out = append(out, Boundary{"nesting eight levels deep, 13 and 5 operands with groups behind them", m})
 	}
 	// 5. conditions: every parameter type, containers of every type, names differing in case, non-ASCII literals,
 	//    the modulo operator, many conditions
